@@ -980,6 +980,9 @@ class Manager:
         finally:
             with contextlib.suppress(Exception):
                 self.tick()
+                # tasks that finish while fading out may still fire events
+                while len(self._queue):
+                    self.tick()
 
         self.root._executing_thread = None
         self.__thread = None
